@@ -65,6 +65,18 @@ CHECKS["C12"] = dict(level="exploration", design="4/C12", engine="sandbox-and-wa
     technique="property-based testing: generated trees of generated modules x input spellings x prefix/separator/extension/header settings, line-view oracle",
     text="Trees of generated modules (with/without '@module [name]' doccomments with arbitrary Unicode bodies, indented or not, directly followed by commands) are documented as directory input (absolute, relative, './x/', '.') or lone file input under drawn prefix sources, separators, extension options and header lists; on every page the title frame, the single leading module directive, the derivation of title/module name from prefix + relative path (base name for a lone file, no absolute component, pairwise distinct) and the '@module' override/body attribution are checked.",
     note=SBX_NOTE + " Module contents come from the C01/C02 generator.")
+CHECKS["C16"] = dict(level="exploration", design="4/C16", engine="sandbox-and-walk-model",
+    technique="property-based testing over configurations: per-option source subsets with distinct values, recorder in place of cminx.document, defaults parsed from config_default.yaml",
+    text="For every option of the input/output/rst sections an independent subset of {command line, -s file, user configuration} sets a distinct value (optionally a wrong-typed one at the highest-priority file source); cminx.main runs in a sandbox with CMINXDIR pinned and cminx.document replaced by a recorder; the recorded Settings must follow command line > -s file > user config > documented default, exclude filters must be the multiset union, output.directory must resolve against cwd or the setting file's directory, effective wrong-typed values must be rejected before document() runs.",
+    note=SBX_NOTE + " Defaults are read from the config_default.yaml of the tree under test with PyYAML; confuse is trusted to honour CMINXDIR.")
+CHECKS["C17"] = dict(level="exploration", design="4/C17", engine="sandbox-and-walk-model",
+    technique="metamorphic property-based testing over run histories: same input under other cwd/spelling/location/listing order/hash seed/neighbouring inputs, byte comparison",
+    text="A baseline run of a generated tree or lone file is compared byte for byte with 2-5 further runs drawn from: repeat, relative spellings from other working directories (incl. '.' and '..'), moved tree, permuted directory listings, another PYTHONHASHSEED in a real subprocess, other inputs documented before/after in the same main() call (sharing base names), successive cminx.document() calls with one Settings object.",
+    note=SBX_NOTE + " Paths written by several inputs (shared top index.rst) are excluded and counted.")
+CHECKS["C18"] = dict(level="exploration", design="4/C18", engine="sandbox-and-walk-model",
+    technique="property-based testing: sandbox snapshots before/after runs with and without -o, stdout decomposition against the -o pages",
+    text="Whole-sandbox snapshots (paths, sizes, hashes) around runs with output directories that are absolute, relative, nested in the input tree (fresh or pre-existing), the parent of the input, or pre-populated: everything created or modified lies inside the output directory, nothing is deleted, unrelated files are untouched; without -o nothing changes on disk and stdout decomposes exactly into the pages of the -o run, each once with one empty line, sorted within a directory (sample re-run as a subprocess).",
+    note=SBX_NOTE)
 NOT_APPLICABLE = [
 ]
 
